@@ -435,6 +435,11 @@ func (m *Machine) tick() (bool, error) {
 				}
 			}
 		case machine.Monetary:
+			if v.Amount.Ltz() {
+				return true, fmt.Errorf(
+					"cannot save a monetary with a negative amount: [%s %s]",
+					string(v.Asset), v.Amount)
+			}
 			// an account no send takes from has no tracked balance: nothing to protect
 			if accBalances, ok := m.Balances[a]; ok {
 				accBalances[v.Asset] = accBalances[v.Asset].Sub(v.Amount)
